@@ -171,6 +171,7 @@ pub trait G: Any {
     fn kids(&self, v: usize) -> Result<Vec<(String, usize)>, String>;
     fn keys(&self) -> Result<Vec<usize>, String>;
     fn len(&self) -> Result<usize, String>;
+    fn is_empty(&self) -> Result<bool, String>;
     fn snap(&self) -> VerifSnapshot;
     fn dup(&self) -> Result<Box<dyn G>, String>;
     fn save(&self, p: &Path) -> Result<Result<usize, String>, String>;
@@ -225,6 +226,9 @@ impl<const N: usize> G for R<N> {
     }
     fn len(&self) -> Result<usize, String> {
         guarded(|| self.0.len())
+    }
+    fn is_empty(&self) -> Result<bool, String> {
+        guarded(|| self.0.is_empty())
     }
     fn snap(&self) -> VerifSnapshot {
         self.0.verif_snapshot()
